@@ -41,17 +41,17 @@ const (
 
 // Task is one goroutine known to the scheduler.
 type Task struct {
-	ID       string
-	Class    string // optional label given by the harness (caller, reader, ...)
-	goid     int64
-	resume   chan int
-	state    taskState
-	site     int // where it is parked / blocked
-	waitLock any
-	children int
-	prio     int
-	held     []heldLock
-	Steps    int
+	ID        string
+	Class     string // optional label given by the harness (caller, reader, ...)
+	goid      int64
+	resume    chan int
+	state     taskState
+	site      int // where it is parked / blocked
+	waitLock  any
+	children  int
+	prio      int
+	held      []heldLock
+	Steps     int
 	spawnStep int
 }
 
